@@ -36,6 +36,7 @@ type protoRun struct {
 	BadXi    []int `json:",omitempty"` // positions in Members whose party runs with a wrong secret share (Xi+1)
 	WeakPre  []int `json:",omitempty"` // ECDSA keygen / resharing: sorted party indices (new-committee indices) that bring under-sized parameters
 	WeakBits int   `json:",omitempty"`
+	GenPre   []int `json:",omitempty"` // ECDSA keygen / resharing: sorted (new-committee) indices whose party gets no pre-parameters: the library generates them
 }
 
 func (p protoRun) edd() bool { return p.Proto[:5] == "eddsa" }
@@ -139,12 +140,15 @@ func (p protoRun) build() *runCtx {
 			for _, w := range p.WeakPre {
 				x.pre[w] = weakPreParams(p.WeakBits)
 			}
+			for _, g := range p.GenPre {
+				x.pre[g] = eckeygen.LocalPreParams{}
+			}
 			cfg.Pre = x.pre
 		}
 		x.net, x.ids = sim.NewKeygen(cfg)
 		x.secrets = make([][][]byte, len(x.net.Nodes))
 		for i := range x.net.Nodes {
-			if !p.edd() {
+			if !p.edd() && x.pre[i].PaillierSK != nil {
 				pp := x.pre[i]
 				x.secrets[i] = append(secretBytes(pp.Alpha, pp.Beta, pp.P, pp.Q), secretBytes(pp.PaillierSK.P, pp.PaillierSK.Q, pp.PaillierSK.LambdaN, pp.PaillierSK.PhiN)...)
 			}
@@ -206,6 +210,9 @@ func (p protoRun) build() *runCtx {
 		for _, w := range p.WeakPre {
 			x.pre[w] = weakPreParams(p.WeakBits)
 		}
+		for _, g := range p.GenPre {
+			x.pre[g] = eckeygen.LocalPreParams{}
+		}
 		for _, b := range p.BadXi {
 			keys[b].Xi = add(keys[b].Xi, 1)
 		}
@@ -222,6 +229,9 @@ func (p protoRun) build() *runCtx {
 		}
 		for j := range x.newIDs {
 			pp := x.pre[j]
+			if pp.PaillierSK == nil {
+				continue
+			}
 			x.secrets[x.nOld+j] = append(secretBytes(pp.Alpha, pp.Beta, pp.P, pp.Q), secretBytes(pp.PaillierSK.P, pp.PaillierSK.Q, pp.PaillierSK.LambdaN, pp.PaillierSK.PhiN)...)
 		}
 	case "eddsa-resharing":
